@@ -17,7 +17,8 @@ B. sequential histories through the public path (ResolveStatusResponseWithGenera
   pnew <nb> | mode i 0/1 | preset | sleep ms | ping <routeGen> <proto> <ttlms> <fallback 0/1> <i,j,k>
      candidates 0..nb-1 are listeners that accept (up: answer, down: close at once); candidate nb is a black hole (the dial
      runs into dialTimeout: a context.DeadlineExceeded-class error), candidate nb+1 a closed port (connection refused)
-     output of ping: `backend <i> <n>` (status of backend i, its n-th accepted connection overall) / `fallback` /
+     output of ping: `backend <i> <n> @<proto>` (status of backend i, its n-th accepted connection overall, produced for a
+     handshake with protocol number <proto>, which the backend echoes) / `fallback` /
      `error`, followed by ` | f=<connections accepted so far>`
 
 R. really concurrent probes of reset vs. in-flight load (search for a failing history; harness `partRace`):
@@ -276,12 +277,16 @@ def seqRequest (s : Sys) (p : PubSt) (i : Nat) (proto : Int) (rg : Nat) (ttl : I
 def fetchNo (p : PubSt) (v : Res) : Nat :=
   if v.lid ≥ 1000000 then v.lid - 1000000 else ((p.lidFetch.find? (·.1 = v.lid)).map (·.2)).getD 0
 
-def seqPing (s : Sys) (p : PubSt) (proto : Int) (rg : Nat) (ttl : Int) : List Nat → Sys × PubSt × Option (Nat × Nat)
+/-- the protocol the backend was pinged with when it produced `v`: the key of the fetch (own protocol when uncached) -/
+def fetchProto (s : Sys) (proto : Int) (v : Res) : Int :=
+  if v.lid ≥ 1000000 then proto else ((s.loads[v.lid]?).map (·.key.protocol)).getD proto
+
+def seqPing (s : Sys) (p : PubSt) (proto : Int) (rg : Nat) (ttl : Int) : List Nat → Sys × PubSt × Option (Nat × Nat × Int)
   | [] => (s, p, none)
   | i :: rest =>
     let (s, res, p) := seqRequest s p i proto rg ttl
     match res with
-    | some v => (s, p, some (i, fetchNo p v))
+    | some v => (s, p, some (i, fetchNo p v, fetchProto s proto v))
     | none => seqPing s p proto rg ttl rest
 
 /-! ### part R: the two linearisations of the held-probe history -/
@@ -354,10 +359,12 @@ def pubVerdict (p : PubSt) (cands : List Nat) (fb : Bool) (ttl : Int) (rg : Nat)
   let upCont (i : Nat) : Bool := p.contUp[i]?.getD false
   let v : String :=
     match what.splitOn " " with
-    | ["backend", is, ns] =>
+    | ["backend", is, ns, ps] =>
       (match is.toNat?, ns.toNat? with
        | some i, some n =>
          if !cands.contains i then "viol:wrong-key"
+         -- the backend echoes the protocol number of the handshake it was pinged with: it must be THIS client's
+         else if ps ≠ "@" ++ toString proto then "viol:wrong-key"
          else match p.frec.find? (·.1 = n) with
            | none => "viol:unknown-result"
            | some (_, ep, t, slept, frg, fproto) =>
@@ -424,7 +431,7 @@ def dstep (d : DState) (c : Case) : DState × String × String :=
        let fb := fbs = "1"
        let (s, p, res) := seqPing d.sys d.pub proto rg ttl cands
        let out := (match res with
-         | some (i, n) => s!"backend {i} {n}"
+         | some (i, n, fp) => s!"backend {i} {n} @{fp}"
          | none => if fb then "fallback" else "error") ++ s!" | f={p.fetches}"
        let (p, v) := pubVerdict p cands fb ttl rg proto c.impl
        ({ d with sys := s, pub := p }, out, v)
